@@ -94,8 +94,9 @@ def snapshot(r):
                 wt[os.path.relpath(pth, r.path)] = open(pth, "rb").read()
             except OSError:
                 pass
+    head_oid = r.git(["rev-parse", "--verify", "-q", "HEAD"], check=False).stdout.strip()
     return {"refs": refs, "cfg": sorted(cfg), "head": head, "states": states, "stacks": stacks,
-            "index": index_tree, "status": st, "wt": wt}
+            "index": index_tree, "status": st, "wt": wt, "head_oid": head_oid}
 
 
 def model_request(s, ids, op):
@@ -105,7 +106,13 @@ def model_request(s, ids, op):
     head = hexs(s["head"]) if s["head"] else "_"
     states = "|".join("%d:%s" % (ids.of(oid), ";".join("%s=%d" % (hexs(pn), ids.of(c)) for pn, c in ps))
                       for oid, ps in sorted(s["states"].items())) or "-"
-    opf = [op[0]] + [hexs(x) if isinstance(x, str) else ("1" if x else "0") for x in op[1:]]
+    if op[0] == "create":
+        hid = ids.of(s["head_oid"])
+        opf = ["create", hexs(op[1]), hexs(op[2]) if op[2] else "_", str(hid), str(len(ids.m) + 1)]
+    elif op[0] == "describe":
+        opf = ["describe", hexs(op[1]), hexs(op[2]) if op[2] else "-"]
+    else:
+        opf = [op[0]] + [hexs(x) if isinstance(x, str) else ("1" if x else "0") for x in op[1:]]
     return ["bstep", refs, cfg, head, states] + opf
 
 
@@ -285,6 +292,44 @@ def oracle(op, rc, before, after):
             probs += wt_same(before, after)
             if after["head"] != cur:
                 probs.append("%s moved HEAD" % kind)
+    elif kind == "create":
+        new, frm = op[1], op[2]
+        probs += others_untouched(before, after, [new])
+        parent = frm or cur
+        for c in {k[len("refs/heads/"):] for k in before["refs"] if k.startswith("refs/heads/")}:
+            if c != new and refs_of_branch(before["refs"], c) != refs_of_branch(after["refs"], c):
+                probs.append("create changed refs of branch %r" % c)
+            if c != new and unrelated(c, new) and cfg_of_branch(before["cfg"], c) != cfg_of_branch(after["cfg"], c):
+                probs.append("create changed config of branch %r" % c)
+        want_head = before["refs"].get("refs/heads/" + frm) if frm else before["head_oid"]
+        if after["refs"].get("refs/heads/" + new) != want_head:
+            probs.append("create: the new branch does not start at the parent's head")
+        st = after["stacks"].get(new)
+        if st is None or st["applied"] or st["unapplied"] or st["hidden"]:
+            probs.append("create: the new branch does not have an empty stack: %r" % (st,))
+        if [k for k in after["refs"] if k.startswith("refs/patches/%s/" % new)]:
+            probs.append("create: patch refs exist under the new name")
+        if after["head"] != new:
+            probs.append("create: HEAD is %r" % after["head"])
+        if parent and (new + ".stgit", "parentbranch", parent) not in after["cfg"]:
+            probs.append("create: parent branch %r not recorded" % parent)
+    elif kind == "switch":
+        if before["refs"] != after["refs"] or before["cfg"] != after["cfg"]:
+            probs.append("switch changed refs or config")
+        if after["head"] != op[1]:
+            probs.append("switch: HEAD is %r" % after["head"])
+    elif kind == "describe":
+        b = op[1]
+        if before["refs"] != after["refs"]:
+            probs.append("describe changed refs")
+        want = [e for e in before["cfg"] if e[:2] != (b, "description")]
+        if op[2]:
+            want = sorted(want + [(b, "description", op[2])])
+        if after["cfg"] != want:
+            probs.append("describe: config is %r, expected %r" % (after["cfg"], want))
+        if after["head"] != cur:
+            probs.append("describe moved HEAD")
+        probs += wt_same(before, after)
     elif kind in ("protect", "unprotect"):
         b = op[1]
         probs += others_untouched(before, after, [b])
@@ -358,6 +403,17 @@ def gen_op(rng, s):
     anyb = lambda: rng.choice(branches + ([rng.choice(fresh)] if fresh and rng.random() < 0.1 else []))
     newn = lambda: rng.choice(fresh) if fresh and rng.random() < 0.8 else rng.choice(branches)
     x = rng.random()
+    y = rng.random()
+    if y < 0.12:
+        return ["create", newn(), (rng.choice(branches) if rng.random() < 0.5 else None)]
+    if y < 0.17:
+        return ["switch", anyb()]
+    if y < 0.22:
+        return ["describe", anyb(), rng.choice(["", "about it", "two words", "d\u00e9crit"])]
+    if y < 0.27:
+        others = [b for b in branches if b != s["head"]]
+        if others:
+            return ["gitdelete", rng.choice(others)]      # plain git: the stack refs of the branch stay behind
     if x < 0.18:
         return ["clone", newn()]
     if x < 0.40:
@@ -377,6 +433,12 @@ def gen_op(rng, s):
 
 def argv_of(op):
     k = op[0]
+    if k == "create":
+        return ["branch", "--create", op[1]] + ([op[2]] if op[2] else [])
+    if k == "switch":
+        return ["branch", op[1]]
+    if k == "describe":
+        return ["branch", "--describe", op[2], op[1]]
     if k == "clone":
         return ["branch", "--clone", op[1]]
     if k == "rename":
@@ -395,7 +457,9 @@ def in_model(op, s):
     if k == "delete" and op[1] == cur:
         parent = [e[2] for e in s["cfg"] if e[0] == cur + ".stgit" and e[1] == "parentbranch"]
         return bool(parent) and ("refs/heads/" + parent[0]) in s["refs"]
-    return k in ("rename", "delete", "cleanup", "protect", "unprotect")
+    if k == "create":
+        return bool(s["head_oid"])
+    return k in ("rename", "delete", "cleanup", "protect", "unprotect", "switch", "describe")
 
 
 def has_twin(s, op):
@@ -431,6 +495,11 @@ def run_scenario(stg, bd, rng, nops, tag="c17"):
             if op[0] == "checkout":
                 r.git(["checkout", "-q", op[1]], check=False)
                 log.append(["git", "checkout", "-q", op[1]])
+                continue
+            if op[0] == "gitdelete":
+                r.git(["branch", "-q", "-D", op[1]], check=False)
+                log.append(["git", "branch", "-q", "-D", op[1]])
+                recs.append(("gitdelete", 0))
                 continue
             if op[0] == "other":
                 target, what = op[1], op[2]
@@ -558,6 +627,9 @@ def run(ctx):
     n2, f2 = protected_cmds(stg, ctx.rng)
     total += n2
     failures += f2
+    n3, f3 = orphan_probes(stg)
+    total += n3
+    failures += f3
     ctx.obligations += 2
     reported = 0
     kf = json.load(open(os.path.join(common.VERIF, "known_findings.json")))
@@ -617,6 +689,52 @@ def match_known(f, known):
             continue
         return e
     return None
+
+
+def orphan_probes(stg):
+    """a name whose branch was deleted with plain git keeps its refs/stacks/<n> and refs/patches/<n>/*:
+    `--create` and `--clone` onto that name give it exactly the new stack's refs, `--rename` onto it
+    refuses and changes nothing"""
+    fails = []
+    n = 0
+    for kind in ("create", "create-from", "clone-empty", "clone", "rename"):
+        with repo.Scratch("c17o") as r:
+            r.init_repo()
+            r.stg(stg, ["init"])
+            log = []
+            import random
+            make_branch(r, stg, random.Random(5), "gone", 3, log)
+            r.git(["checkout", "-q", "main"])
+            if kind in ("clone", "rename"):
+                r.stg(stg, ["new", "-m", "m1", "m1"])
+            r.git(["branch", "-q", "-D", "gone"])
+            before = snapshot(r)
+            argv = {"create": ["branch", "--create", "gone"], "create-from": ["branch", "--create", "gone", "main"],
+                    "clone-empty": ["branch", "--clone", "gone"], "clone": ["branch", "--clone", "gone"],
+                    "rename": ["branch", "--rename", "main", "gone"]}[kind]
+            p = r.stg(stg, argv)
+            after = snapshot(r)
+            n += 1
+            probs = []
+            if kind == "rename":
+                if p.returncode == 0:
+                    probs.append("rename onto a name that still has a stack state ref succeeded")
+                for key in ("refs", "cfg", "head"):
+                    if before[key] != after[key]:
+                        probs.append("refused rename changed %s" % key)
+            else:
+                if p.returncode != 0:
+                    probs.append("failed: " + p.stderr.strip()[-200:])
+                else:
+                    probs += patch_refs_match(after, "gone")
+                    if kind.startswith("create") and after["stacks"].get("gone", {}).get("patches"):
+                        probs.append("the created branch has patches")
+                    if after["head"] != "gone":
+                        probs.append("HEAD is %r" % after["head"])
+            if probs:
+                fails.append({"obligation": "direct-oracle:C17:orphan", "kind": kind, "argv": argv, "exit": p.returncode,
+                              "problems": probs, "stderr": p.stderr[-300:]})
+    return n, fails
 
 
 def twin_probe(stg):
